@@ -28,6 +28,8 @@ type BSpec struct {
 	Rule        string
 	Assumptions []string
 	DesignRef   string
+	// Revariant recomputes the flag sets for a reduced grammar (flags that name rules).
+	Revariant func(g *gspec.Grammar, old []batch.Variant) []batch.Variant
 	// Post inspects the batch result (C04: compile failures are violations there).
 	Post func(r *Run, res *batch.Result, ev map[string]any)
 }
@@ -233,7 +235,7 @@ func runB(r *Run, s *BSpec) error {
 		r.Logf("%d groups violated the property; reporting the 3 smallest", len(viols))
 		viols = viols[:3]
 	}
-	for _, v := range viols {
+	for vi, v := range viols {
 		g := res.Meta.Groups[v.Group]
 		var variants []batch.Variant
 		for _, p := range g.Pkgs {
@@ -247,9 +249,15 @@ func runB(r *Run, s *BSpec) error {
 		}
 		rf := &ReplayFile{Property: s.ID, Engine: "batch", Kind: v.Kind, RepoHead: head, Seed: r.Opt.Seed, Tier: r.Opt.Tier,
 			Spec: v.Spec, Grammar: text, Variants: variants, Case: cb, Expected: v.Expect, Actual: v.Actual, Diff: v.Pkg + " (" + v.Variant + "): " + v.Diff}
-		path := r.Violation(rf)
 		r.Logf("violation %s: %s\n   grammar:\n%s   case: %s", v.Kind, v.Diff, indent(text), string(cb))
-		_ = path
+		if vi == 0 {
+			budget := 90 * time.Second
+			if !r.Quick() {
+				budget = 4 * time.Minute
+			}
+			rf = shrinkReplay(r, s, rf, 14, budget)
+		}
+		r.Violation(rf)
 	}
 
 	// crashes / hangs
@@ -376,8 +384,13 @@ func handleCrash(r *Run, s *BSpec, res *batch.Result, cr batch.Crash) {
 		// reuse the pigeon binary
 		os.Link(filepath.Join(r.Work, "pigeon"), filepath.Join(sub, "pigeon"))
 		rr, err := batch.Run(cfg)
-		if err == nil && len(rr.Crashes) > 0 {
-			confirmed++
+		if err == nil {
+			for _, sum := range rr.Summaries {
+				if sum != nil && len(sum.WitnessFails) > 0 {
+					confirmed++
+					break
+				}
+			}
 		}
 		os.RemoveAll(sub)
 	}
